@@ -128,6 +128,30 @@ package gzip
 //@   loop 1 invariant 0 <= #i && #i <= len(g.Configs) && nextCalls == old(nextCalls) && errBodies == old(errBodies)
 //@   loop 2 invariant 0 <= #i2 && #i2 <= len(c.RequestFilters) && nextCalls == old(nextCalls) && errBodies == old(errBodies)
 
+//@ unit gzip_parse frames=on props=C18 filter=`gzip\.gzipParse$`
+//@ // "responses that are already encoded are not encoded again" rests on SkipCompressedFilter being among the response
+//@ // filters of EVERY gzip block the setup builds (Gzip.ServeHTTP compresses unconditionally when a block has none).
+//@ use casketfile/contracts_verif.go:dispenser_api
+//@ use @verif/specs/stdlib.spec:stdlib
+//@ extern strconv.Atoi
+//@ extern strconv.ParseInt
+//@ extern fmt.Errorf
+//@   ensures result != nil
+//@ func (Set).Add
+//@   requires s != nil
+//@   modifies MV:map[string]struct{}, MD:map[string]struct{}
+//@ func DefaultExtFilter
+//@ define skips(cfg Config) bool = exists(j, 0, len(cfg.ResponseFilters), is(cfg.ResponseFilters[j], SkipCompressedFilter))
+//@ func gzipParse
+//@   requires c != nil
+//@   modifies Dispenser.cursor, Dispenser.nesting, MV:map[string]struct{}, MD:map[string]struct{}
+//@   ensures [every_block_skips_already_encoded_responses] result1 == nil ==> forall(k, 0, len(result0), skips(result0[k]))
+//@   at call builtin:append#5 assert [new_block_skips] skips(config)
+//@   loop 1 invariant c != nil && forall(k, 0, len(configs), skips(configs[k]))
+//@   loop 2 invariant c != nil && forall(k, 0, len(configs), skips(configs[k]))
+//@   loop 3 invariant c != nil && forall(k, 0, len(configs), skips(configs[k]))
+//@   loop 4 invariant c != nil && forall(k, 0, len(configs), skips(configs[k]))
+
 //@ unit setup_sweep props=C11 files=setup.go nilchecks=on nonnil_params=on dispenser_variants=on exclude=`gzip\.(gzipParse|initWriterPool)$` filter=`.`
 //@ // Safety sweep of this directive's setup code: index, slice, division, nil-map store, nil dereference, explicit panic,
 //@ // and termination of the loops driven by the token cursor. No functional contract; callees in the dispenser through their contracts.
